@@ -1,8 +1,10 @@
 package main
 
 import (
+	"bytes"
 	"fmt"
 	"go/ast"
+	"go/printer"
 	"go/types"
 	"os"
 	"path/filepath"
@@ -571,7 +573,7 @@ func computeRacOldTypes(p *Prog) {
 			ok = false
 			return pk.Name()
 		}
-		var out []string
+		out := map[string]string{}
 		for _, e := range fi.Ensures {
 			ast.Inspect(e.Expr, func(n ast.Node) bool {
 				call, isCall := n.(*ast.CallExpr)
@@ -587,12 +589,20 @@ func computeRacOldTypes(p *Prog) {
 						txt = ""
 					}
 				}
-				out = append(out, txt)
+				// keyed by the text of the expression: positions do not align
+				// (a range bound is evaluated twice in the instrumented form)
+				var buf bytes.Buffer
+				printer.Fprint(&buf, p.Fset, call.Args[0])
+				key := stripSpace(buf.String())
+				if prev, seen := out[key]; seen && prev != txt {
+					txt = ""
+				}
+				out[key] = txt
 				return false // nested old() is not hoisted separately
 			})
 		}
 		if racOldTypes[dir] == nil {
-			racOldTypes[dir] = map[string][]string{}
+			racOldTypes[dir] = map[string]map[string]string{}
 		}
 		racOldTypes[dir][fi.Key] = out
 	}
@@ -682,4 +692,13 @@ func racSweep(p *Prog, funcs map[string]bool) ([]sweepHit, int, error) {
 		hits = append(hits, sweepHit{Line: k, Input: corpus[idx], All: strings.Join(run.ByInput[idx], "\n")})
 	}
 	return hits, len(corpus), nil
+}
+
+func stripSpace(s string) string {
+	return strings.Map(func(r rune) rune {
+		if r == ' ' || r == '\t' || r == '\n' {
+			return -1
+		}
+		return r
+	}, s)
 }
